@@ -80,6 +80,8 @@ def cases(spec, ctx):
             r["pb"] = rng.choice([n_ * 13 + r["sx"], n_ * 13 + 2, 27 * r["sy"] * 2, 45, 54, 108, n_ * 9 + 3])
         r["level"] = rng.choice([1, 2, 3, 64, 66])
         r["pics"]["n"] = 2 if r["pcm"] else 1
+        if rng.random() < 0.06:
+            r["pics"]["n"] = 0  # a picture-less sequence: the level's ordering pattern still applies
         r["pics"]["class"] = "mid"
         r["pics"]["nums"] = None
         if rng.random() < 0.5:
@@ -328,6 +330,14 @@ def _judge_recipe(case, r, table, key, ctx):
             ctx.count("encoder_raised:" + type(e).__name__)
             ctx.seen(key, nontrivial=False)
             return
+        except KeyError as e:
+            if not pics and e.args and str(e.args[0]).endswith(("_picture", "_picture_fragment")):
+                # the ordering pattern demands a picture after every header and none was supplied: make_sequence has
+                # nothing to put there (a caller error outside the property; counted)
+                ctx.count("empty_sequence_under_pattern_demanding_pictures")
+                ctx.seen(key, nontrivial=False)
+                return
+            raise
         ctx.count("encoder_returned")
         if r.get("qm_equals_default"):
             ctx.count("explicit_matrix_equal_to_default")
